@@ -8,9 +8,10 @@ ShapesQ == { <<D("ms_p2sh", 2, <<1, 2, 3>>, "c"), D("p2pkh", 1, <<1>>, "u")>>,
              <<D("ms_bare", 1, <<2, 1>>, "u"), D("ms_p2wsh", 2, <<3, 1>>, "c")>>,
              <<D("p2wpkh", 1, <<2>>, "c"), D("ms_p2sh_p2wsh", 3, <<3, 2, 1>>, "c")>> }
 ShapesT == ShapesQ \cup
-           { <<D("ms_bare", 3, <<4, 3, 2, 1>>, "c")>>, <<D("p2sh_p2wpkh", 1, <<4>>, "c"), D("p2pk", 1, <<2>>, "c")>> }
+           { <<D("ms_p2sh", 2, <<1, 2>>, "c"), D("ms_p2sh", 2, <<1, 2>>, "c")>>, <<D("ms_bare", 3, <<4, 3, 2, 1>>, "c")>>, <<D("p2sh_p2wpkh", 1, <<4>>, "c"), D("p2pk", 1, <<2>>, "c")>> }
 HTq == {131}
-ShapesOC == { <<D("ms_p2sh", 2, <<1, 2, 3>>, "c"), D("p2pkh", 1, <<1>>, "u")>> }
+ShapesOC == { <<D("ms_p2sh", 2, <<1, 2, 3>>, "c"), D("p2pkh", 1, <<1>>, "u")>>,
+              <<D("p2pkh", 1, <<2>>, "c"), D("p2pkh", 1, <<2>>, "c")>> }   \* the same puzzle twice
 CoinsQ == {"BTC", "BCH"}
 CoinsD == {"BTG"}
 HTd == {3}
